@@ -12,6 +12,7 @@ if TYPE_CHECKING:
 
     from biodivine_aeon import Regulation, VariableId
 
+from copy import copy
 from typing import cast
 
 from biodivine_aeon import BooleanNetwork, RegulatoryGraph, SignType, SymbolicContext
@@ -152,6 +153,18 @@ def cleanup_network(network: BooleanNetwork) -> BooleanNetwork:
         raise AssertionError(
             f"Parametrized networks are not supported. Found implicit parameters: {names}."
         )
+
+    # A free input is a source node: its value never changes. The symbolic algorithms
+    # would otherwise treat its missing update function as an unknown constant, and the
+    # states of one attractor computation would then move between different input values.
+    if len(network.implicit_parameters()) > 0:
+        network = copy(network)
+        for var in network.implicit_parameters():
+            name = network.get_variable_name(var)
+            network.ensure_regulation(
+                {"source": name, "target": name, "essential": True, "sign": "+"}
+            )
+            network.set_update_function(var, name)
 
     return network.infer_valid_graph()
 
